@@ -1,5 +1,5 @@
 From AB Require Import Desc Generated GeneratedWf.
-From AB Require Import Tree TreeDefs TreeProofs TreeProofs2 TreeProofs3 TreeProofs4 TreeRun TreeFacts.
+From AB Require Import Tree TreeDefs TreeProofs TreeProofs2 TreeProofs3 TreeProofs4 TreeWF TreeWFProofs TreeRun TreeFacts.
 From Coq Require Import ZArith List Bool.
 Import ListNotations.
 
@@ -49,6 +49,13 @@ Theorem C11_clone_border : forall cs new f, classes_ok cs -> classes_anchored cs
   forall n fuel sd, (depth (clone cs new f n) < fuel)%nat -> conforms cs n = true ->
   exists t, border cs fuel sd (clone cs new f n) = Some (f t) /\ In t (leaves n).
 Proof. exact clone_border_total. Qed.
+(* the copy of a well-formed tree is a well-formed tree (TreeWF.WF, the C05 statement) in the new store *)
+Theorem C11_clone_wf : forall cs new f, classes_ok cs ->
+  (forall t, k_rule (f t) = k_rule t /\ k_text (f t) = k_text t) ->
+  forall a, conforms cs a = true ->
+  (forall t t', In t (node_toks a) -> In t' (node_toks a) -> k_id (f t) = k_id (f t') -> k_id t = k_id t') ->
+  WF cs a -> WF cs (clone cs new f a).
+Proof. exact clone_WF. Qed.
 
 Example C11_clone_hyps :
   (forall t, k_rule (ex_fresh t) = k_rule t /\ k_text (ex_fresh t) = k_text t)
@@ -58,3 +65,7 @@ Example C11_clone_hyps :
   /\ length (leaves ex_open_num) = 16%nat
   /\ node_eq all_classes (clone all_classes 9 ex_fresh ex_open_num) ex_open_num = true.
 Proof. split; [exact ex_fresh_keeps | vm_compute; auto]. Qed.
+Example C11_clone_wf_hyps :
+  wf_b all_classes ex_open_num = true
+  /\ wf_b all_classes (clone all_classes 9 ex_fresh ex_open_num) = true.
+Proof. vm_compute. auto. Qed.
